@@ -2,7 +2,7 @@ import JjModel.Lemmas.Table
 import JjModel.Lemmas.TableExact
 import JjModel.Lemmas.HeadProto
 import JjModel.Generated.TableGuard
--- AFTER-FIX: import JjModel.Props.C21Guard
+import JjModel.Props.C21Guard
 /-!
   C21 — stacked tables keep every saved entry under concurrent writers.
 
@@ -229,8 +229,8 @@ theorem no_entry_lost_of_guard : NoEntryLost true := by
 theorem no_entry_lost (hg : tableGuardEq = true) : NoEntryLost tableGuardEq := by
   rw [hg]; exact no_entry_lost_of_guard
 
--- AFTER-FIX: /-- the C21 statement, unconditionally, for the code as it is (`guard_present` is re-checked against the generated constant on every run) -/
--- AFTER-FIX: theorem no_entry_lost_now : NoEntryLost tableGuardEq := no_entry_lost guard_present
+/-- the C21 statement, unconditionally, for the code as it is (`guard_present` is re-checked against the generated constant on every run) -/
+theorem no_entry_lost_now : NoEntryLost tableGuardEq := no_entry_lost guard_present
 
 /-- the entries of a completed save are keys of the table it published -/
 theorem save_has_entries (base : Table) (es : Entries) (k : Nat) (h : lookup es k ≠ none) :
